@@ -35,7 +35,7 @@ def cmd_h(tag, defs, maxlen, flags=(), tier="both", timeout=300, mem_gb=4, bound
     lk = "LK" in defs or "REAL_LK7" in defs
     return dict(name="cmd." + tag, src="C01/cmd.c", entry=entry, defines=defs + (["STEPWISE"] if step else []),
                 rename_defs=rn(dict(RFT, **OUTB)) if step else rn(RFT),
-                unwindset={"copy_from_history.0": maxlen + 1, "bs_ref.0": 16, "harness.0": 5, "harness.1": 65, "harness_outbyte.0": 515, "havoc_window.0": 65},
+                unwindset={"copy_from_history.0": maxlen + 1, "bs_ref.0": 21, "harness.0": 5, "harness.1": 65, "harness_codes.0": 5, "harness_outbyte.0": 515, "havoc_window.0": 65},
                 flags=list(flags), backend=backend, tier=tier, timeout=timeout, mem_gb=mem_gb, bounds=bounds,
                 stubs=[SPECSTUB, RFTSTUB] + (["output_byte: monitor wrapper that checks the byte-at-a-time LZ77 step and calls the real output_byte"] if step else []),
                 units=["lib/lh_new_decoder.c:lha_lh_new_read,read_code,copy_from_history,read_offset_code,output_byte"
@@ -88,6 +88,11 @@ HARNESSES = [
           bounds="byte-at-a-time oracle; LHARK template at HISTORY_BITS 3 (8-byte ring): every length class 3..514, distance codes 0..5"),
     cmd_h("step.lh5", ["REAL_LH5"], 256, step=True, flags=["--arrays-uf-always"], tier="thorough", timeout=1800, mem_gb=6,
           bounds="byte-at-a-time oracle; real lib/lh5_decoder.c (16 KiB ring): position, offset symbol 0..14, extra bits, every length 3..256 symbolic"),
+    cmd_h("codes.lh5", ["REAL_LH5"], 1, entry="harness_codes", timeout=120, bounds="real lib/lh5_decoder.c: every offset symbol 0..14, all extra bits, any bit alignment"),
+    cmd_h("codes.lh6", ["REAL_LH6"], 1, entry="harness_codes", timeout=120, bounds="real lib/lh6_decoder.c: every offset symbol 0..16, all extra bits, any bit alignment"),
+    cmd_h("codes.lh7", ["REAL_LH7"], 1, entry="harness_codes", timeout=120, bounds="real lib/lh7_decoder.c: every offset symbol 0..17, all extra bits, any bit alignment"),
+    cmd_h("codes.lhx", ["REAL_LHX"], 1, entry="harness_codes", timeout=120, bounds="real lib/lhx_decoder.c: every offset symbol 0..20, all extra bits, any bit alignment"),
+    cmd_h("codes.lk7", ["REAL_LK7"], 1, entry="harness_codes", timeout=120, bounds="real lib/lk7_decoder.c: every distance code 0..31 and every length code 256..288, all extra bits, any bit alignment"),
     cmd_h("outbyte.hb4", ["HB=4", "OB=3"], 256, step=True, entry="harness_outbyte", timeout=120,
           bounds="real output_byte from an arbitrary 16-byte ring / position / buffer fill"),
     cmd_h("outbyte.lh5", ["REAL_LH5"], 256, step=True, entry="harness_outbyte", timeout=120, flags=["--arrays-uf-always"],
